@@ -1104,7 +1104,10 @@ def main(listenip_v6, listenip_v4,
         ports = range(12300, 9000, -1)
         for port in ports:
             debug2('Trying to bind DNS redirector on port %d' % port)
-            if port in used_ports:
+            if port in used_ports or \
+                    port in (redirectport_v4, redirectport_v6):
+                # never share a port number with the TCP/UDP redirector,
+                # including one given explicitly with --listen
                 continue
 
             dns_listener = MultiListener(socket.SOCK_DGRAM)
